@@ -10,7 +10,8 @@ import multiprocessing as mp
 SPECS = []
 
 KNOWN_CLASSES = {
-    "C18-close-racing-with-a-completing-job-strands-the-worker": ["at-quiescence: worker"],
+    "C18-close-racing-with-a-completing-job-strands-the-worker": ["at-quiescence: worker0-in-transit", "at-quiescence: worker1-in-transit", "at-quiescence: worker2-in-transit",
+                                                                   "at-quiescence: worker3-in-transit", "at-quiescence: worker4-in-transit"],
     "C18-worker-leaving-busy-is-not-counted-so-the-pool-grows-beyond-its-size": ["workers-bounded"],
 }
 
@@ -18,8 +19,8 @@ CONFIGS = {
     # (MIN, SIZE, J, with_close, K)
     # the last flag: a quiescent state with every job served must be reachable within K (vacuity guard for the
     # at-quiescence assertions); configurations without it still catch lost wake-ups, which quiesce early
-    "quick": [(1, 1, 1, False, 26, True), (1, 1, 2, False, 34, False), (1, 2, 2, False, 34, False), (2, 2, 2, False, 32, False),
-              (1, 1, 1, True, 38, True), (1, 2, 1, True, 38, True)],
+    "quick": [(1, 1, 1, False, 26, True), (1, 1, 2, False, 40, False), (1, 2, 2, False, 34, False), (2, 2, 2, False, 32, False),
+              (1, 1, 1, True, 42, True), (1, 2, 1, True, 42, True)],
     "thorough": [(1, 1, 1, False, 30, True), (1, 1, 2, False, 48, True), (1, 2, 2, False, 48, True), (2, 2, 2, False, 44, False),
                  (1, 3, 3, False, 44, False), (2, 3, 3, False, 40, False), (1, 2, 3, False, 44, False),
                  (1, 1, 1, True, 44, True), (1, 2, 2, True, 52, False), (2, 2, 2, True, 48, False)],
